@@ -146,8 +146,12 @@ func (g *Gen) title(multi bool) *string {
 	return &t
 }
 
-var dests = []string{"/u", "http://x.y/z", "a/b", "#frag", "/p?q=1&r=2", "/my uri", "/é", "x%20y", "/a(b)c", "u", "", "/a_b*c", "/x\\y", "/q\"r"}
-var plainDests = []string{"/u", "http://x.y/z", "a/b", "#frag", "/p?q=1", "u", "/a_b"}
+var dests = []string{"/u", "http://x.y/z", "a/b", "#frag", "/p?q=1&r=2", "/my uri", "/é", "x%20y", "/a(b)c", "u", "", "/a_b*c", "/x\\y", "/q\"r", "/caf\u00e9", "/a|b|", "/100%", "/x%4", "/%C3%A9", "/\U00010100"}
+
+// plainDests: what the formatter can write back (no space, angle bracket or
+// parenthesis); characters that NormalizeURI has to encode are included, also
+// as the last character of the destination.
+var plainDests = []string{"/u", "http://x.y/z", "a/b", "#frag", "/p?q=1", "u", "/a_b", "/é", "/caf\u00e9", "/a|b|", "x%20y", "/p?q=1&r=2", "/100%", "/x%4", "/q\"r", "/x\\y", "/%C3%A9"}
 
 func (g *Gen) dest() string {
 	if g.R.PlainDests {
